@@ -26,6 +26,7 @@ func init() {
 			"where well-formed, also passed as Go strings (second internal representation); search/separator strings of length <= 2; position arguments " +
 			"{omitted,undefined,null,NaN,-Inf,-1,-0.5,0,0.5,1,2,3,4,+Inf,1e19,-1e19,\"1\",true}; receivers: primitive, String object, object with toString, array, 12, true, undefined, null; " +
 			"order family: receiver and arguments are objects whose toString/valueOf log, draw from a shared counter and behave in 5 ways (primitive, fallback, throw, object-then-throw, never primitive), every argument count, checked against the replay of the 15.5.4.x step order (log, result, surfacing exception); " +
+			"wrappers family: every method probed on receivers whose ToString was customised (String/Number/Boolean objects and primitives with own or prototype toString/valueOf replaced, non-callable or returning objects; arrays with replaced join/toString; plain objects), fresh runtime per case, expected = [[DefaultValue]] 8.12.8 with the log of user functions called; " +
 			"each (method, receiver route, representation, string, argument tuple) is one case; a case is non-trivial when the expected result is not the trivial one of its method " +
 			"(empty string / -1 / NaN / the unchanged receiver / TypeError).",
 		Families: []engine.Family{
